@@ -247,6 +247,11 @@ func runExhaustive(p *Program, r *RuleResult) {
 					}
 				}
 			}
+			if silent && !failing && isPureTextFn(p, fn) {
+				// a function that only computes a text: printing nothing for the remaining
+				// members is a choice of the printer, not a dropped step
+				continue
+			}
 			if !failing && !silent {
 				continue
 			}
@@ -277,4 +282,16 @@ func runExhaustive(p *Program, r *RuleResult) {
 		}
 	}
 	r.count("dispatch sites with failing or silent default", nSites)
+}
+
+// isPureTextFn: fn returns exactly one string and writes nothing that outlives it.
+func isPureTextFn(p *Program, fn *ssa.Function) bool {
+	res := fn.Signature.Results()
+	if res.Len() != 1 {
+		return false
+	}
+	if b, ok := res.At(0).Type().Underlying().(*types.Basic); !ok || b.Kind() != types.String {
+		return false
+	}
+	return p.writesNothingOutside(fn)
 }
